@@ -1104,18 +1104,28 @@ func (w *World) Ack(subName string, ids []string) {
 // each statement, COMMIT) fails with a driver error. An answer of OK is final
 // like any other; after an error the client does what clients do - it retries
 // (fault-free), and that answer counts.
-func (w *World) AckUnderFault(subName string, ids []string, k int) {
+func (w *World) AckUnderFault(subName string, ids []string, k int, deadlock bool) {
 	w.slot()
 	lo := w.now()
 	actor := fmt.Sprintf("faulty-ack-%d", w.opn())
 	req := &pubsubpb.AcknowledgeRequest{Subscription: subName, AckIds: ids}
-	seam.C.SetFault(&seam.Fault{Actor: actor, K: k, Mode: seam.FaultError})
+	mode := seam.FaultError
+	if deadlock {
+		mode = seam.FaultDeadlock
+	}
+	seam.C.SetFault(&seam.Fault{Actor: actor, K: k, Mode: mode})
 	_, err := w.E.Sub.Acknowledge(w.E.Actor(actor), req)
 	hit := seam.C.FaultHits() > 0
 	seam.C.SetFault(nil)
-	res := fmt.Sprintf("%s fault@%d hit=%v", code(err), k, hit)
+	res := fmt.Sprintf("%s fault@%d deadlock=%v hit=%v", code(err), k, deadlock, hit)
 	if hit {
 		w.stat("ack_faults_hit", 1)
+		if deadlock {
+			w.stat("ack_deadlock_reports_hit", 1)
+			if err == nil {
+				w.stat("ack_ok_after_its_own_retry_of_a_deadlock_report", 1)
+			}
+		}
 		if err == nil {
 			w.stat("ack_ok_although_a_statement_failed", 1)
 		}
